@@ -79,12 +79,16 @@ def main():
         rec["tests_pass_with_patch"], rec["tests_tail"] = build_and_test()
         rec["demo_patched"], rec["demo_tail"] = run_demo(src, pid)
         env = dict(os.environ, VERIF_REPO=str(WT), VERIF_JOBS="8")
+        evf = VERIF / "evidence" / f"{pid}.json"
+        ev_backup = evf.read_bytes() if evf.exists() else None
         t0 = time.time()
         r = subprocess.run([str(VERIF / "check.py"), pid], capture_output=True, text=True, env=env, cwd=VERIF)
         rec["check_exit"] = r.returncode
         rec["check_lines"] = [l for l in r.stdout.splitlines() if l.startswith(("VIOLATION", "KNOWN-FINDING"))]
         rec["check_wall_s"] = round(time.time() - t0)
         rec["caught"] = r.returncode == 1 and any(l.startswith("VIOLATION") for l in rec["check_lines"])
+        if ev_backup is not None:
+            evf.write_bytes(ev_backup)      # the committed evidence describes /repo, not the mutant
         for l in rec["check_lines"]:
             m = re.search(r"replay=(\S+)", l)
             if m and Path(m.group(1)).exists():
